@@ -646,3 +646,30 @@ func (c *Ctx) funcDecl(p *packages.Package, recv, name string) *ast.FuncDecl {
 	}
 	return nil
 }
+
+// include evaluates a sub-rule of another property into r: discharged obligations are summarised in one
+// line, everything else is copied with the given key prefix (so a shared mechanism fails every property
+// that depends on it).
+func (r *Report) include(prefix, what string, fn func(sub *Report)) {
+	sub := newReport(r.Prop, r.Tier)
+	fn(sub)
+	nOK := 0
+	for _, ob := range sub.Obls {
+		if ob.Status == Discharged {
+			nOK++
+			continue
+		}
+		o2 := *ob
+		o2.Key = prefix + ob.Key
+		r.add(&o2)
+	}
+	for f := range sub.funcsSeen {
+		r.funcsSeen[f] = true
+	}
+	for k, v := range sub.Counters {
+		r.Counters[k] += v
+	}
+	if nOK == len(sub.Obls) && nOK > 0 {
+		r.OK(prefix+what, "all %d shared obligations hold", nOK)
+	}
+}
